@@ -9,6 +9,7 @@ exit 0: property held on everything explored; 1: violation; 2: infrastructure fa
 """
 import argparse
 import fcntl
+import fnmatch
 import importlib
 import json
 import os
@@ -107,18 +108,30 @@ class LeanLock:
         self.f.close()
 
 
+EXTRACTORS = {'extract_tables.py': 'Tables.lean', 'extract_optable.py': 'OpTable.lean'}
+
+
 def extract_tables():
-    """regenerate lean/Synphot/Generated/Tables.lean from /repo (only rewritten on change).
-    Returns (status, detail): 'ok' | 'fallback' (extractor could not read the source)"""
-    tool = os.path.join(VERIF, 'tools', 'extract_tables.py')
-    if not os.path.exists(tool):
-        return 'absent', ''
-    p = subprocess.run([sys.executable, tool, '--repo', core.REPO, '--out',
-                        os.path.join(LEAN, 'Synphot', 'Generated', 'Tables.lean')],
-                       capture_output=True, text=True)
-    if p.returncode != 0:
-        return 'fallback', (p.stdout + p.stderr)[-1500:]
-    return 'ok', p.stdout.strip()
+    """regenerate lean/Synphot/Generated/*.lean from /repo (each file is only rewritten on change).
+    Returns (status, detail): 'ok' | 'fallback' (an extractor could not read the source: the committed
+    baseline of that table is restored and the correspondence carries the tie) | 'absent'"""
+    status, detail = 'absent', []
+    for tool_name, out_name in EXTRACTORS.items():
+        tool = os.path.join(VERIF, 'tools', tool_name)
+        if not os.path.exists(tool):
+            continue
+        out = os.path.join(LEAN, 'Synphot', 'Generated', out_name)
+        p = subprocess.run([sys.executable, tool, '--repo', core.REPO, '--out', out],
+                           capture_output=True, text=True)
+        if p.returncode != 0:
+            status = 'fallback'
+            detail.append('%s: %s' % (tool_name, (p.stdout + p.stderr)[-600:]))
+            subprocess.run(['git', 'checkout', '--', os.path.relpath(out, VERIF)], cwd=VERIF, capture_output=True)
+        else:
+            if status != 'fallback':
+                status = 'ok'
+            detail.append(p.stdout.strip())
+    return status, '; '.join(detail)
 
 
 def lake_build(targets):
@@ -202,8 +215,6 @@ def main():
         if tstat == 'fallback':
             rep.notes.append('table extractor could not read the source; committed baseline table '
                              'kept and validated against the running code: ' + tdetail[-300:])
-            subprocess.run(['git', 'checkout', '--', 'lean/Synphot/Generated/Tables.lean'], cwd=VERIF,
-                           capture_output=True)
         if not a.no_build:
             rc, out = lake_build(['Synphot.Driver.Main'])
             if rc != 0:
@@ -211,7 +222,7 @@ def main():
             rc, out = lake_build([entry['module']])
             if rc != 0:
                 if 'Generated' in out or tstat == 'ok' and subprocess.run(
-                        ['git', 'diff', '--quiet', '--', 'lean/Synphot/Generated/Tables.lean'],
+                        ['git', 'diff', '--quiet', '--', 'lean/Synphot/Generated'],
                         cwd=VERIF).returncode != 0:
                     lean_broken = out[-3000:]
                 else:
@@ -242,9 +253,15 @@ def main():
     known_sigs = {k['signature']: k for k in known}
     seen_known = {}
     violations = []
+    def known_match(sig):
+        for pat in known_sigs:
+            if sig == pat or fnmatch.fnmatchcase(sig, pat):
+                return pat
+        return None
     for sig, msg, case, impl in rep.oracle_failures:
-        if sig in known_sigs:
-            seen_known.setdefault(sig, (msg, case))
+        pat = known_match(sig)
+        if pat is not None:
+            seen_known.setdefault(pat, (msg, case))
         else:
             violations.append(('oracle', sig, msg, case, impl, None))
     if rep.mismatches and not violations:
@@ -255,7 +272,7 @@ def main():
                 found = mod.search(rep, rep.mismatches) or []
             except Exception:
                 rep.notes.append('search crashed: ' + traceback.format_exc()[-500:])
-        found = [f for f in found if f[0] not in known_sigs]
+        found = [f for f in found if known_match(f[0]) is None]
         if found:
             for sig, msg, case, impl in found:
                 violations.append(('oracle', sig, msg, case, impl, None))
